@@ -187,10 +187,11 @@ mc_set_current(const char *c)
     snprintf(mc_current, sizeof mc_current, "%s", c);
     mc_in_case = 1;
 }
+static int mc_child_mode; /* in a forked child the parent attributes the crash */
 static void
 mc_crash_record(const char *kind)
 {
-    if (!mc_fp || !mc_in_case)
+    if (!mc_fp || !mc_in_case || mc_child_mode)
         return;
     mc_in_case = 0;
     fprintf(mc_fp, "{\"t\":\"crash\",\"kind\":\"%s\",\"case\":", kind);
@@ -627,6 +628,7 @@ mc_fork_loop(long long first, long long end, long long step, int batch, int hang
                 close(fd);
             }
             mc_nsig = 0; /* per-child signature table */
+            mc_child_mode = 1;
             for (i = next; i < stop; i += step) {
                 int rc;
                 if (hang_s)
